@@ -105,6 +105,48 @@ func opTables(u *Universe) (map[string]*opInfo, bool) {
 					}
 					continue
 				}
+				// a local closure that wraps "newBaseOperation(type, id, unmarshalBody(body, emptyBody))"
+				if id, isID := ast.Unparen(call.Fun).(*ast.Ident); dec && isID && fd != nil && fd.Body != nil {
+					if v, isVar := info.Uses[id].(*types.Var); isVar {
+						var lit *ast.FuncLit
+						ast.Inspect(fd.Body, func(x ast.Node) bool {
+							as, isAs := x.(*ast.AssignStmt)
+							if !isAs || len(as.Lhs) != len(as.Rhs) {
+								return true
+							}
+							for i, l := range as.Lhs {
+								if li, isLI := l.(*ast.Ident); isLI && (info.Defs[li] == types.Object(v) || info.Uses[li] == types.Object(v)) {
+									if fl, isFL := as.Rhs[i].(*ast.FuncLit); isFL {
+										lit = fl
+									}
+								}
+							}
+							return true
+						})
+						if lit != nil {
+							wraps := 0
+							ast.Inspect(lit.Body, func(x ast.Node) bool {
+								if c2, isC := x.(*ast.CallExpr); isC {
+									if g := calleeOf(info, c2); g != nil && (oldObjName(g) == "newBaseOperation" || oldObjName(g) == "unmarshalBody") {
+										wraps++
+									}
+								}
+								return true
+							})
+							if wraps >= 2 {
+								for _, a := range call.Args {
+									if ue, isU := ast.Unparen(a).(*ast.UnaryExpr); isU && ue.Op == token.AND {
+										if btv, okT := info.Types[ue]; okT {
+											oi.decConsts = append(oi.decConsts, caseConsts...)
+											oi.decBody = typeStr(btv.Type)
+										}
+									}
+								}
+							}
+							continue
+						}
+					}
+				}
 				if len(call.Args) != 3 {
 					continue
 				}
